@@ -1616,10 +1616,19 @@ def jnp_diag(a):
 
 def jnp_matmul(a, b):
     a, b = to_at(a), to_at(b)
-    if not all(isinstance(x, int) for x in a.axes + b.axes):
-        raise Top("matmul of symbolic tensors")
     if not a.axes or not b.axes:
         raise Finding("matmul with a 0-d operand")
+    if not all(isinstance(x, int) for x in a.axes + b.axes):
+        # named (row / grid) axes of the left operand are carried through when the contraction itself is over concrete axes
+        cb = 0 if len(b.axes) == 1 else len(b.axes) - 2
+        if isinstance(a.axes[-1], int) and all(isinstance(x, int) for x in b.axes) and len(b.axes) <= 2:
+            if a.axes[-1] != b.axes[cb]:
+                raise Finding(f"matmul of incompatible shapes {a.axes} {b.axes}")
+            r = np.dot(a.data, b.data)
+            if not isinstance(r, np.ndarray):
+                r = _box(r)
+            return AT(a.axes[:-1] + tuple(x for i, x in enumerate(b.axes) if i != cb), r)
+        raise Top("matmul of symbolic tensors")
     if a.axes[-1] != b.axes[0 if len(b.axes) == 1 else -2]:
         raise Finding(f"matmul of incompatible shapes {a.axes} {b.axes}")
     r = np.dot(a.data, b.data)
